@@ -75,6 +75,60 @@ pub fn trace_hash(tr: &Trace) -> u64 {
 pub fn run_case(prop: &str, gen_: GenFn, cs: u64, thorough: bool) -> (Program, Trace, Report) {
     let mut rng = Rng::new(cs);
     let prog = gen_(&mut rng);
+    run_prog(prop, prog, cs, thorough)
+}
+
+/// all single faults (and, if `pairs`, a sample of ordered pairs on different actors) for `prog`, given its
+/// fault-free trace under the same schedule seed: (kind x position) = panic at every callback entry of every
+/// victim, Err at every started entry, cancellation after every poll of the victim's loop task
+pub fn expand_faults(prog: &Program, tr: &Trace, pairs: bool, rng: &mut Rng) -> Vec<(Program, String)> {
+    let ix = Index::build(&tr.events);
+    let mut singles: Vec<(Program, String, u32)> = vec![];
+    let victims: Vec<u32> = prog.actors.iter().chain(prog.defaults.iter()).map(|d| d.tag).filter(|t| prog.actors.len() <= 3 || *t <= 2 || *t >= 9000).collect();
+    for tag in &victims {
+        let kinds = tr.cb_kinds.get(tag).cloned().unwrap_or_default();
+        for (k, kind) in kinds.iter().enumerate() {
+            let mut p = prog.clone();
+            p.faults.push((*tag, k as u32, true));
+            singles.push((p, format!("panic@{kind}"), *tag));
+            if *kind == "started" {
+                let mut p = prog.clone();
+                p.faults.push((*tag, k as u32, false));
+                singles.push((p, "err@started".to_string(), *tag));
+            }
+        }
+        // cancellation: after each poll of the victim's loop task (unique-task tags only)
+        if let Some(task) = ix.task_of(*tag) {
+            let nth = tr.census[..task as usize].iter().filter(|t| t.kind == "actor").count() as u32;
+            let polls = tr.census[task as usize].polls;
+            for j in 1..polls {
+                let mut p = prog.clone();
+                p.cancel = Some((nth, j));
+                singles.push((p, "cancel@poll".to_string(), *tag));
+            }
+        }
+    }
+    let mut out: Vec<(Program, String)> = singles.iter().map(|(p, l, _)| (p.clone(), l.clone())).collect();
+    if pairs && singles.len() >= 2 {
+        let n = singles.len().min(24);
+        for _ in 0..n {
+            let a = &singles[rng.below(singles.len() as u64) as usize];
+            let b = &singles[rng.below(singles.len() as u64) as usize];
+            if a.2 == b.2 {
+                continue;
+            }
+            let mut p = a.0.clone();
+            p.faults.extend(b.0.faults.iter().cloned());
+            if p.cancel.is_none() {
+                p.cancel = b.0.cancel;
+            }
+            out.push((p, format!("pair:{}+{}", a.1, b.1)));
+        }
+    }
+    out
+}
+
+pub fn run_prog(prop: &str, prog: Program, cs: u64, thorough: bool) -> (Program, Trace, Report) {
     let cfg = cfg_for(cs, thorough);
     let tr = scenario::run_l1(&prog, cfg);
     let mut rep = Report::default();
@@ -86,16 +140,17 @@ pub fn run_case(prop: &str, gen_: GenFn, cs: u64, thorough: bool) -> (Program, T
     (prog, tr, rep)
 }
 
-pub fn witness_json(prop: &str, profile: &str, cs: u64, thorough: bool, prog: &Program, tr: &Trace, v: &oracle::Violation) -> String {
+pub fn witness_json(prop: &str, profile: &str, cs: u64, variant: usize, thorough: bool, prog: &Program, tr: &Trace, v: &oracle::Violation) -> String {
     let mut s = String::new();
     let _ = write!(
         s,
-        "{{\n \"property\": {}, \"rule\": {}, \"sig\": {}, \"engine\": \"L1-vexec\", \"profile\": {}, \"case_seed\": {}, \"thorough\": {}, \"policy\": {},\n \"message\": {},\n \"witness_events\": {:?},\n \"program\": {},\n \"trace\": [\n",
+        "{{\n \"property\": {}, \"rule\": {}, \"sig\": {}, \"engine\": \"L1-vexec\", \"profile\": {}, \"case_seed\": {}, \"variant\": {}, \"thorough\": {}, \"policy\": {},\n \"message\": {},\n \"witness_events\": {:?},\n \"program\": {},\n \"trace\": [\n",
         jstr(prop),
         jstr(v.rule),
         jstr(&v.sig),
         jstr(profile),
         cs,
+        variant,
         thorough,
         jstr(&format!("{:?}", cfg_for(cs, thorough))),
         jstr(&v.msg),
@@ -138,7 +193,8 @@ pub fn run_shard(a: &ShardArgs) {
     let (mut events, mut decisions, mut multi, mut steps) = (0u64, 0u64, 0u64, 0u64);
     let mut timed_out = false;
     'outer: for (pname, total) in &a.plan {
-        let g = profile(pname);
+        let expand = pname.ends_with("+faults");
+        let g = profile(pname.trim_end_matches("+faults"));
         let mut k = a.shard;
         while k < *total {
             if t0.elapsed().as_secs_f64() > a.deadline_s {
@@ -146,7 +202,29 @@ pub fn run_shard(a: &ShardArgs) {
                 break 'outer;
             }
             let cs = case_seed(a.seed, pname, k);
-            let (prog, tr, rep) = run_case(&a.prop, g, cs, a.thorough);
+            let mut runs: Vec<(Program, Trace, Report, String)> = vec![];
+            {
+                let (prog, tr, rep) = run_case(&a.prop, g, cs, a.thorough);
+                if expand {
+                    let mut r2 = Rng::new(cs ^ 0xfa17);
+                    let variants = expand_faults(&prog, &tr, a.thorough, &mut r2);
+                    runs.push((prog, tr, rep, "none".to_string()));
+                    for (vp, label) in variants {
+                        let (p2, t2, r2) = run_prog(&a.prop, vp, cs, a.thorough);
+                        runs.push((p2, t2, r2, label));
+                    }
+                } else {
+                    runs.push((prog, tr, rep, String::new()));
+                }
+            }
+            for (variant, (prog, tr, rep, label)) in runs.into_iter().enumerate() {
+            if !label.is_empty() {
+                *counters.entry(format!("fault_table.{label}")).or_insert(0) += 1;
+                let hit = tr.events.iter().any(|e| matches!(e.k, log::K::Fault { .. }));
+                if label != "none" && hit {
+                    *counters.entry(format!("fault_table_hit.{label}")).or_insert(0) += 1;
+                }
+            }
             evals += 1;
             *per_profile.entry(pname.clone()).or_insert(0) += 1;
             *policies.entry(format!("{:?}", cfg_for(cs, a.thorough).policy)).or_insert(0) += 1;
@@ -193,8 +271,8 @@ pub fn run_shard(a: &ShardArgs) {
                     continue;
                 }
                 let _ = std::fs::create_dir_all(&a.replay_dir);
-                let path = format!("{}/{}-{}-{}-{}.json", a.replay_dir, a.seed, pname, cs, v.rule);
-                let _ = std::fs::write(&path, witness_json(&a.prop, pname, cs, a.thorough, &prog, &tr, v));
+                let path = format!("{}/{}-{}-{}-v{}-{}.json", a.replay_dir, a.seed, pname, cs, variant, v.rule);
+                let _ = std::fs::write(&path, witness_json(&a.prop, pname, cs, variant, a.thorough, &prog, &tr, v));
                 viols.push(format!(
                     "{{\"rule\": {}, \"sig\": {}, \"msg\": {}, \"replay\": {}, \"profile\": {}, \"case_seed\": {}}}",
                     jstr(v.rule),
@@ -204,6 +282,7 @@ pub fn run_shard(a: &ShardArgs) {
                     jstr(pname),
                     cs
                 ));
+            }
             }
             k += a.nshards;
         }
